@@ -472,7 +472,14 @@ func fetchDocWithIDAndItsSubDocs(node planNode, docID string) (immutable.Option[
 
 	node.Prefixes(prefixes)
 
-	if err := node.Init(); err != nil {
+	// The document is looked up by its docID. A scan that was given a secondary index (for a condition
+	// or an order on one of its indexed fields) would ignore the prefix and yield the first document of
+	// the index for every lookup, so the lookup reads the primary index.
+	index := scan.index
+	scan.index = immutable.None[client.IndexDescription]()
+	err = node.Init()
+	scan.index = index
+	if err != nil {
 		return immutable.None[core.Doc](), NewErrSubTypeInit(err)
 	}
 
